@@ -18,16 +18,16 @@ impl Scenario for C07 {
 
     fn budget(&self, tier: Tier) -> (u64, u64) {
         match tier {
-            Tier::Quick => (6000, 120),
-            Tier::Thorough => (150_000, 1500),
+            Tier::Quick => (l1::c07_sweep_size(tier) + 6000, 120),
+            Tier::Thorough => (l1::c07_sweep_size(tier) + 150_000, 1500),
         }
     }
 
     fn rule(&self) -> &'static str {
-        "an established real PeerCrypto pair (real rotation state and key slots); 300-1500 ticks per end (thorough: up to 4000; rotation interval 120 ticks) at independent rates (drift, swapped order), rotation messages lost (10-60 %), duplicated, reordered and delayed by up to 600 ticks during a fault phase covering 0-75 % of the run; after every step each end seals a probe and the other must open it to the same bytes; in the fault-free suffix (after a recovery allowance of 4 intervals) the sealing key of each direction must change at least once in every window of 2 intervals + 1 tick. Non-trivial: probes were checked. Distinct = distinct schedule hashes."
+        "the first 6^6 runs (thorough: 6^8) are a seed-indexed sweep over all schedules of that length over {rotation cycle (120 ticks) at A, cycle at B, deliver the oldest / newest in-flight rotation message, deliver a duplicate of the oldest, drop the oldest} with a probe in both directions after every operation; the remaining runs: an established real PeerCrypto pair (real rotation state and key slots); 300-1500 ticks per end (thorough: up to 4000; rotation interval 120 ticks) at independent rates (drift, swapped order), rotation messages lost (10-60 %), duplicated, reordered and delayed by up to 600 ticks during a fault phase covering 0-75 % of the run; after every step each end seals a probe and the other must open it to the same bytes; in the fault-free suffix (after a recovery allowance of 4 intervals) the sealing key of each direction must change at least once in every window of 2 intervals + 1 tick. Non-trivial: probes were checked. Distinct = distinct schedule hashes."
     }
 
     fn expected_probes(&self) -> Vec<&'static str> {
-        vec!["c07_sealing_key_changes", "c07_long_lifetimes", "c07_freshness_windows_checked", "fault_drop", "fault_dup", "fault_reorder", "fault_delay"]
+        vec!["c07_sweep_runs", "c07_sealing_key_changes", "c07_long_lifetimes", "c07_freshness_windows_checked", "fault_drop", "fault_dup", "fault_reorder", "fault_delay"]
     }
 }
